@@ -506,6 +506,71 @@ func runC17(r *core.Run) {
 			return core.Outcome{Class: c.Layout, Nontrivial: len(a0) > 0 && len(b0) > 0, Evals: 3}
 		})
 
+	// Large k: two k-mers that differ in ONE base, at every position of the k-mer. An implementation that
+	// identifies a k-mer by a packed word, a prefix, a suffix or a rolling value loses some position once k
+	// exceeds what the word holds (k > 32 for 2 bits per base in 64 bits, k > 16 in 32 bits).
+	type c17OneBase struct {
+		K   int    `json:"k"`
+		Pos int    `json:"differing_position"`
+		X   string `json:"base_in_first"`
+		Y   string `json:"base_in_second"`
+	}
+	oneBaseKs := []int{1, 2, 3, 5, 8, 15, 16, 17, 21, 31, 32, 33, 34, 47, 63, 64, 65, 70}
+	if r.Thorough() {
+		oneBaseKs = nil
+		for k := 1; k <= 72; k++ {
+			oneBaseKs = append(oneBaseKs, k)
+		}
+	}
+	r.Bound("kmers-differing-in-one-base", fmt.Sprintf("k in %v x every position of the k-mer x the base pairs A/C, C/G, G/T, A/T, a/G; two sequences of length k (and of length k+3 with common flanks) over an aperiodic background that differ in that one base; n = 16", oneBaseKs))
+	core.Clause(r, "kmers-differing-in-one-base", core.Opts{Rule: "two sequences that differ in exactly one base, at every position, for small and large k: Sequences on both together, in either order, and Sequences on one followed by Add of the other all hold exactly the bottom-n reference over the canonical k-mers of both (the two k-mers are different k-mers wherever they differ); non-trivial = all"},
+		func(emit func(c17OneBase) bool) {
+			for _, k := range oneBaseKs {
+				for p := 0; p < k; p++ {
+					for _, xy := range [][2]string{{"A", "C"}, {"C", "G"}, {"G", "T"}, {"A", "T"}, {"a", "G"}} {
+						if !emit(c17OneBase{k, p, xy[0], xy[1]}) {
+							return
+						}
+					}
+				}
+			}
+		},
+		func(c c17OneBase) core.Outcome {
+			bg := make([]byte, c.K+3)
+			x := uint64(0x9E3779B97F4A7C15) + uint64(c.K)
+			for i := range bg {
+				x ^= x << 13
+				x ^= x >> 7
+				x ^= x << 17
+				bg[i] = "ACGT"[x>>62]
+			}
+			evals := 0
+			for _, flank := range []int{0, 3} {
+				s1, s2 := bytes.Clone(bg[:c.K+flank]), bytes.Clone(bg[:c.K+flank])
+				s1[c.Pos+flank/2], s2[c.Pos+flank/2] = c.X[0], c.Y[0]
+				a, b := core.S(s1), core.S(s2)
+				want := refSketch(16, c.K, []core.S{a, b})
+				for _, order := range [][]core.S{{a, b}, {b, a}} {
+					got, _, p := sketchOf(16, c.K, order)
+					evals++
+					if p != "" || !slices.Equal(got, want) {
+						return core.Failf("Sequences(16,%d,%q,%q) = %v (panic %q), want %v: the two inputs differ only at position %d", c.K, order[0], order[1], got, p, want, c.Pos+flank/2)
+					}
+					var inc []uint64
+					p = catch(func() {
+						mh := mash.Sequences(16, c.K, order[0].B())
+						mash.Add(mh, c.K, order[1].B())
+						inc = slices.Clone(mh.View())
+					})
+					evals += 2
+					if p != "" || !slices.Equal(inc, want) {
+						return core.Failf("Sequences(16,%d,%q) then Add(%q) = %v (panic %q), want %v", c.K, order[0], order[1], inc, p, want)
+					}
+				}
+			}
+			return core.Outcome{Class: fmt.Sprint("k>32=", c.K > 32, " k>16=", c.K > 16), Nontrivial: true, Evals: evals}
+		})
+
 	// Distance laws on all pairs of full sketches
 	dpool := [][]string{{"ACGTAC"}, {"GTACGT"}, {"ACGTACGG"}, {"TTTTAAAACC"}, {"GGGGCCCC"}, {"ACGTTGCATG"}, {"CATGCAACGT"}, {"AAAAAAAA", "CC"}, {"GATTACAGATTACA"}, {"tgtaatctgtaatc"}, {"ACACACAC", "GTGTGTGT"}, {"CAGTCAGTNNACGT"}}
 	distCheck := func(c c17Pair) core.Outcome {
